@@ -40,7 +40,7 @@ func propCleanDirected(t *vt.T) {
 	}
 	for i := 0; i < n; i++ {
 		name := fmt.Sprintf("%sf%d.dat", dirs[t.Pick("dir", len(dirs))], i)
-		kind := t.Pick("ingredient", 7)
+		kind := t.Pick("ingredient", 8)
 		sb := &subj{expected: true}
 		switch kind {
 		case 0: // partial in progress
@@ -86,6 +86,31 @@ func propCleanDirected(t *vt.T) {
 			bad[0].Fault = FFlip
 			w.Request(bad)
 			t.Class("ingredient-failed")
+		case 7: // a complete copy failed validation; the clean retransmission has begun and stalls
+			v := mkv(name, "")
+			sb.fs = &fileState{cur: v, parts: tile(v, s.psize)}
+			if len(sb.fs.parts) < 2 {
+				sb.acked = nil
+				t.Class("ingredient-partial")
+				sb.acked = sendSome(sb.fs, 1)
+				break
+			}
+			bad := append([]PartSpec{}, sb.fs.parts...)
+			bad[len(bad)-1].Fault = FFlip
+			w.Request(bad)
+			w.Settle()
+			s.observe()
+			if w.Poll(v) != sts.ConfirmFailed {
+				t.Skip("the corrupt copy was not reported failed")
+			}
+			delete(w.completed, v.key())
+			w.mu.Lock()
+			if sh := w.shadows[v.Name]; sh != nil {
+				sh.acked, sh.dirty = nil, false
+			}
+			w.mu.Unlock()
+			sb.acked = sendSome(sb.fs, t.IntRange("resent", 1, len(sb.fs.parts)-1))
+			t.Class("ingredient-retry-after-failed-validation")
 		case 6: // delivered long ago: leaves nothing but (possibly nested) empty directories behind
 			v := mkv(name, "")
 			sb.fs = &fileState{cur: v, parts: tile(v, s.psize)}
@@ -143,6 +168,14 @@ func propCleanDirected(t *vt.T) {
 			continue
 		}
 		for _, p := range sb.acked {
+			// the record alone is not enough: the bytes have to be there as well
+			if data := w.readStage(v.Name + ".part"); data == nil || int64(len(data)) < p.End || string(data[p.Beg:p.End]) != string(v.Data[p.Beg:p.End]) {
+				if _, held := w.StageFiles()[v.Name+".wait"]; !held {
+					if _, full := w.StageFiles()[v.Name+".full"]; !full || t.HasClass("ingredient-retry-after-failed-validation") {
+						w.viol("C20", "cleaning-removed-undelivered-data", "after cleaning, the staged bytes of part [%d,%d) of %s#%.6s (acknowledged, version not delivered) are gone; staging: %v", p.Beg, p.End, v.Name, v.Hash, keysOf(w.StageFiles()))
+					}
+				}
+			}
 			if w.Query([]PartSpec{p}) != 1 {
 				// Received() under-claims for a new version of a delivered name (see DESIGN); use the listing
 				listed := false
